@@ -13,6 +13,24 @@ ROOT = os.path.dirname(os.path.dirname(os.path.abspath(__file__)))
 
 
 def main():
+    global REPO
+    wt = None
+    if '--worktree' in sys.argv:
+        # the mutation is made in a scratch worktree under /tmp and the check imports compmech from there (VERIF_REPO); /repo untouched
+        sys.argv.remove('--worktree')
+        wt = '/tmp/mut_%d' % os.getpid()
+        subprocess.run([os.path.join(ROOT, 'tools', 'mk_worktree.sh'), wt], check=True, stdout=subprocess.PIPE)
+        REPO = wt
+        os.environ['VERIF_REPO'] = wt
+    try:
+        return _main()
+    finally:
+        if wt:
+            subprocess.run(['git', '-C', '/repo', 'worktree', 'remove', '--force', wt], stdout=subprocess.PIPE, stderr=subprocess.STDOUT)
+            subprocess.run(['rm', '-rf', wt])
+
+
+def _main():
     props, rel, old, new = sys.argv[1:5]
     extra = sys.argv[5:]
     path = os.path.join(REPO, rel)
